@@ -198,6 +198,19 @@ func CoordinateUpdate(node string, x float64) world.Op {
 	}}
 }
 
+// CoordinateBatch is one batch update naming several nodes (possibly the same node more than once).
+func CoordinateBatch(nodes []string, xs []float64) world.Op {
+	return world.Op{Name: fmt.Sprintf("coordinate.batch(%v,%v)", nodes, xs), Kind: "coordinate/batch", Build: func(w *world.World) (structs.MessageType, any, bool) {
+		var cs structs.Coordinates
+		for i, n := range nodes {
+			c := coordinate.NewCoordinate(coordinate.DefaultConfig())
+			c.Vec[0] = xs[i]
+			cs = append(cs, &structs.Coordinate{Node: n, Coord: c})
+		}
+		return structs.CoordinateBatchUpdateType, cs, true
+	}}
+}
+
 func FederationState(dc string, primaryIdx uint64, del bool) world.Op {
 	n := fmt.Sprintf("fedstate.upsert(%s,%d)", dc, primaryIdx)
 	op := structs.FederationStateUpsert
